@@ -7,6 +7,8 @@ import JunoModel.C20.ProofsLastUpd
 import JunoModel.C20.ProofsAlias
 import JunoModel.C20.ProofsMisc
 import JunoModel.C20.ProofsPoller
+import JunoModel.C20.ProofsInterleave
+import JunoModel.C20.ProofsClassAlias
 /-!
 C20 — property theorems (statements only; helper lemmas are in `Proofs*.lean`).
 Every theorem in this module is an obligation listed in evidence/C20.json with its axioms.
@@ -186,6 +188,103 @@ theorem held_view_state_over_time (r : Reader) (b : Nat) (baseAt₁ baseAt₂ : 
       p₁.diff = p₂.diff ∧ p₁.classes = p₂.classes ∧ p₁.blockNumber = p₂.blockNumber ∧
       some p₁.head = baseAt₁ (pred64 r.oldest) ∧ some p₂.head = baseAt₂ (pred64 r.oldest) :=
   stateAt_time_independent r b baseAt₁ baseAt₂
+
+/-! ### 2b. interleavings of the writer with lock-free readers (round 5)
+
+`Interleave.lean`: a reader is a goroutine with a program counter — the atomic load of
+`SnapshotForBlock(b)`, then ONE pointer dereference of the `NewestFirst` loop per move, each executed
+against the heap as it is at that moment — and a schedule (`List Act`) says who moves next: the single
+writer (a whole `ApplyUpdate` / `AdvanceTo`) or reader `i`. Nothing is assumed about the schedule.
+What this rests on: sequential consistency of the `atomic.Pointer` (Go memory model) and the premise
+of `Heap.lean` (no field of an existing node is ever assigned; checked on source and objects). -/
+
+/-- **Every reader, in every interleaving, iterates the view it loaded.** One writer and any number
+of readers `rs`, any schedule `acts`, after any history `ops`. For reader `i` (about to call
+`SnapshotForBlock(b)`): either it was never scheduled, or its own moves split the schedule at its
+load into the writer operations `pre` performed before it and the rest `post`, and what its loop has
+yielded so far is exactly the first `readerMoves post` entries of `snapshotFor (run (ops ++ pre)) b` —
+the LIST-MODEL view of the storage at the moment of the load — no matter what the writer publishes,
+realigns or drops while the reader iterates, and no matter what the other readers do. All theorems
+about `snapshotFor (run …) b` (contiguity, alignment, maximality, lookups, state) therefore hold for
+what a concurrent reader actually walks. -/
+theorem interleaved_readers_see_their_snapshot (ops : List Op) (rs : List RThread) (acts : List Act)
+    (i b : Nat) (hi : rs[i]? = some (.idle b)) :
+    ((sched (hrun ops) rs acts).2[i]? = some (.idle b) ∧ readerMoves (project i acts) = 0) ∨
+    ∃ w pre post, (sched (hrun ops) rs acts).2[i]? = some (.walking w) ∧
+      project i acts = pre.map some ++ none :: post ∧
+      w.out = ((snapshotFor (run (ops ++ pre)) b).newestFirst).take (readerMoves post) := by
+  obtain ⟨h1, _⟩ := sched_project i acts (hrun ops) rs (.idle b) hi
+  rcases sched1_reader b (project i acts) ops with ⟨e, m⟩ | ⟨w, pre, post, e, hsplit, hout⟩
+  · exact Or.inl ⟨by rw [h1, e], m⟩
+  · exact Or.inr ⟨w, pre, post, by rw [h1, e], hsplit, hout⟩
+
+/-- … and the readers write nothing: the storage after the schedule is the storage after the writer's
+operations alone (so `heap_refines_model` gives its list-model content). -/
+theorem interleaved_store_is_writer_history (ops : List Op) (rs : List RThread) (acts : List Act)
+    (i : Nat) (t : RThread) (hi : rs[i]? = some t) :
+    (sched (hrun ops) rs acts).1.abs = run (ops ++ writerOps (project i acts)) := by
+  rw [(sched_project i acts (hrun ops) rs t hi).2, sched1_store, hrun_refines]
+
+/-- A load that falls INSIDE a writer operation — after its allocations, before its publishing
+compare-and-swap: the old pointer, a larger heap — takes the same view as a load before the operation
+(scheduling whole writer operations loses no behaviour). -/
+theorem load_inside_writer_operation_sees_old_view (ops : List Op) (ext : Heap) (b : Nat) :
+    hsnapshotFor { heap := (hrun ops).heap ++ ext, inner := (hrun ops).inner } b = hsnapshotFor (hrun ops) b :=
+  load_between_allocation_and_publication (hrun_ok ops) ext b
+
+/-! ### 2c. the `NewClasses` maps as objects (round 5)
+
+`ClassAlias.lean`: every `map[felt.Felt]core.ClassDefinition` is an object in a memory with an IN-PLACE
+write (`maps.Copy(dst, src)` of `mergeClassesInto`); a map value is nil or an address. Up to round 4
+the immutability of published `NewClasses` maps rested on re-hashing only. The identities these
+theorems predict (`nil | caller | shared | fresh`) are compared with the pointer identity of the real Go
+maps after every `ApplyUpdate` and every state built over a view. -/
+
+/-- **The readers never write a published class map.** The accumulation loop of `PreConfirmedStateAt` /
+`PreConfirmedStateBeforeIndexAt` (`newClasses = mergeClassesInto(newClasses, entry.NewClasses)`, which
+copies INTO its accumulator) over ANY list of published maps `refs` on ANY memory `m`: every object that
+existed before the call is unchanged afterwards; the table handed to `pending.NewState` is nil or a map
+the loop allocated itself — never a published one —; and it denotes the value model's fold. -/
+theorem readers_never_write_published_class_maps (m : CAlias.CMem) (refs : List CAlias.CRef)
+    (hv : ∀ r ∈ refs, CAlias.Valid m r) :
+    CAlias.Unch m.length m (CAlias.accumulate m refs).1 ∧
+    CAlias.FreshOrNil m.length (CAlias.accumulate m refs).2 ∧
+    CAlias.cget (CAlias.accumulate m refs).1 (CAlias.accumulate m refs).2 =
+      (refs.map (CAlias.cget m)).foldl mergeClassesInto [] :=
+  CAlias.accumulate_frame m refs hv
+
+/-- **The writer never writes a published class map.** Whatever the update variant, what
+`computeUpdate` does to class maps when it builds the affected entry (`next.NewClasses = newClasses` for a
+full block; `mergeClassesCopying(<the replaced entry's map>, newClasses)` for a delta / no-change) leaves
+every existing object unchanged; for a delta / no-change the entry's map is the replaced entry's map
+ITSELF when no classes come with the update (read-only sharing) and a freshly allocated map otherwise,
+and it denotes the value model's `mergeClassesCopying`. -/
+theorem writer_never_writes_published_class_maps (m : CAlias.CMem) (u : Update) {target caller : CAlias.CRef}
+    (ht : CAlias.Valid m target) (hc : CAlias.Valid m caller) :
+    CAlias.Unch m.length m (CAlias.applyClassRef m u target caller).1 ∧
+    ((u matches .block ..) = true → (CAlias.applyClassRef m u target caller).2 = caller) ∧
+    ((u matches .block ..) = false →
+      (AMap.size (CAlias.cget m caller) = 0 → (CAlias.applyClassRef m u target caller).2 = target) ∧
+      (AMap.size (CAlias.cget m caller) ≠ 0 →
+        ∃ a, (CAlias.applyClassRef m u target caller).2 = some a ∧ m.length ≤ a) ∧
+      CAlias.cget (CAlias.applyClassRef m u target caller).1 (CAlias.applyClassRef m u target caller).2 =
+        mergeClassesCopying (CAlias.cget m target) (CAlias.cget m caller)) := by
+  refine ⟨CAlias.applyClassRef_frame m u ht hc, ?_, ?_⟩
+  · intro hb; cases u <;> simp_all [CAlias.applyClassRef]
+  · intro hb
+    have h := CAlias.mergeClassesCopying_frame m ht hc
+    cases u with
+    | block _ _ _ => simp at hb
+    | delta _ _ => exact ⟨h.2.1, h.2.2.1, h.2.2.2⟩
+    | noChange => exact ⟨h.2.1, h.2.2.1, h.2.2.2⟩
+
+-- non-vacuity: two published maps (objects 0 and 1); the readers' loop allocates object 2 with both tables
+-- and leaves 0 and 1 alone; the writer's delta with no classes shares object 0, with classes allocates object 2
+example : CAlias.accumulate [[(200, 1)], [(201, 2)]] [some 0, none, some 1] =
+    ([[(200, 1)], [(201, 2)], [(201, 2), (200, 1)]], some 2) := by decide
+example : CAlias.applyClassRef [[(200, 1)]] (.delta "r" []) (some 0) none = ([[(200, 1)]], some 0) := by decide
+example : CAlias.applyClassRef [[(200, 1)], [(201, 2)]] .noChange (some 0) (some 1) =
+    ([[(200, 1)], [(201, 2)], [(201, 2), (200, 1)]], some 2) := by decide
 
 /-! ## 3. the state read through a view is a true overlay -/
 
